@@ -12,6 +12,26 @@ RPS = "pgcat::server::Server::register_prepared_statement::{closure#0}"
 HM = "re:^std::collections::hash::map::HashMap::"
 
 
+def sends_close(b):
+    """does this body put a pgcat-built Close message (Close::new(..) -> bytes) into a buffer that it passes to Server::send?"""
+    ext = [c for c in b.calls("re:BytesMut::extend_from_slice$", "re:BufMut>::put$", "re:BufMut>::put_slice$", "re:BytesMut::unsplit$")
+           if len(c.args) > 1 and "pgcat::messages::Close::new" in {o.call.name for o in origins(b, c.args[1], taint=True) if o.kind == "call"}]
+    direct = [c for c in b.calls("pgcat::server::Server::send") if "pgcat::messages::Close::new" in {o.call.name for o in origins(b, c.args[1], taint=True) if o.kind == "call"}]
+    if direct:
+        return True
+    buf_locals = set()
+    for c in ext:
+        v_ = set()
+        origins(b, c.args[0], visited=v_)
+        buf_locals |= {l for l in v_ if b.varnames.get(l)}
+    sent_locals = set()
+    for c in b.calls("pgcat::server::Server::send"):
+        v_ = set()
+        origins(b, c.args[1], visited=v_)
+        sent_locals |= {l for l in v_ if b.varnames.get(l)}
+    return bool(buf_locals & sent_locals)
+
+
 def rpo(body):
     succ = body.succ("n")
     seen = [False] * body.nblocks
@@ -259,58 +279,159 @@ def run(ctx):
             r4.check(not b.calls("pgcat::pool::get_pool", "re:PreparedStatementCache"), "rewrite-uses-own-map:" + fn.split("::")[-2], "%s consults only the client's own map" % fn.split("::")[-2], "%s consults a pool-wide structure by client name" % fn)
 
     # ---------------- R5
-    r5 = ctx.rule("C08-R5", "a statement evicted from a server's cache is closed on that server; a failed Parse is dropped from the server cache", floor=3)
+    r5 = ctx.rule("C08-R5", "a statement evicted from a server's cache is closed on that server (at once, or recorded and closed later - never forgotten); a failed Parse is dropped from the server cache", floor=3)
+    ADD = "pgcat::server::Server::add_prepared_statement_to_cache"
+    pending = set()   # Server fields that hold evicted-but-not-yet-closed names
+    evict_sites = 0
+    for c in F.all_calls(ADD):
+        b = c.body
+        bsw = switches(b)
+        someE, noneE, _ = discr_edges(b, r"core::option::Option<alloc::string::String>", "Some", origin_pred=lambda o, c=c: o.kind == "call" and o.call is c or (o.kind == "call" and o.call.block == c.block), switches_cache=bsw)
+        short = b.name.replace("::{closure#0}", "").split("::")[-1]
+        if not someE:
+            r5.check(False, "evicted-name-used:" + short, "", "%s calls add_prepared_statement_to_cache and ignores the evicted name: the statement stays open on the server" % short, c.where())
+            continue
+        evict_sites += 1
+        from_add = lambda op, c=c, b=b: any(o.kind == "call" and o.call.block == c.block for o in origins(b, op, taint=True))
+        closes = [k for k in b.calls("pgcat::messages::Close::new") if from_add(k.args[0])]
+        records = []
+        for k in b.calls("re:^alloc::(vec::Vec|collections::vec_deque::VecDeque)::(push|push_back|insert)$", "re:^std::collections::hash::set::HashSet::insert$"):
+            if from_add(k.args[-1]):
+                flds = {p_[1:] for o in origins(b, k.args[0]) if o.kind in ("place", "param") for p_ in o.proj if p_.startswith(".") and not p_[1:].isdigit()}
+                if flds:
+                    records.append((k, flds))
+        rets = [bb for bb, blk in enumerate(b.blocks) if blk["term"]["k"] == "return"]
+        w = b.uncrossed_path([d for _, d in someE], rets, blocks=[k.block for k in closes] + [k.block for k, _ in records])
+        r5.check(w is None and (closes or records), "evict=>close-or-record:" + short, "in %s an evicted name is always turned into a Close or recorded for closing" % short,
+                 "in %s an evicted statement can be forgotten: it stays open on the server" % short, c.where(), w and b.describe_path(w))
+        for k, flds in records:
+            pending |= flds
+        if closes:
+            # eager shape: the Close bytes must be in the buffer that is sent before returning
+            r5.check(sends_close(b), "Close-bytes-are-sent:" + short, "the Close built in %s is appended to the buffer that Server::send transmits" % short, "the Close message built in %s is not sent" % short)
+    r5.check(evict_sites >= 1, "eviction-sites", "%d site(s) receive the name evicted by the LRU" % evict_sites, "no site handles the evicted statement name")
+    flushers = []
+    if pending:
+        r5.note("evicted names are recorded in Server.%s and closed later" % sorted(pending))
+        for n_, b in F.bodies.items():
+            if n_.startswith("bin:"):
+                continue
+            cl = [k for k in b.calls("pgcat::messages::Close::new") if any(o.kind in ("place", "param") and set(p_[1:] for p_ in o.proj if p_.startswith(".")) & pending for o in origins(b, k.args[0], taint=True))]
+            if cl and sends_close(b):
+                flushers.append(b)
+        r5.check(bool(flushers), "pending=>Close+send", "recorded names are turned into Close messages and sent by %s" % [b.name.split("::")[-2] for b in flushers], "names recorded in Server.%s are never closed on the server" % sorted(pending))
+        for b in flushers:
+            bsw = switches(b)
+            sd = [k.block for k in b.calls("pgcat::server::Server::send")]
+            oks = [blk for blk, i_, st in b.assigns() if st["rv"]["k"] == "agg" and st["rv"].get("variant") == "Ok" and st["lhs"]["l"] == 0]
+            empty_true = set()
+            for sw2, o, te, fe in bool_value_edges(b, lambda o: o.kind == "call" and re.search(r"::is_empty$", o.call.name), bsw):
+                if {p_[1:] for oo in origins(b, o.call.args[0]) if oo.kind in ("place", "param") for p_ in oo.proj if p_.startswith(".")} & pending:
+                    empty_true.add(te)
+            w = b.uncrossed_path([0], oks, blocks=sd, edges=empty_true)
+            r5.check(w is None, "flush-sends:" + b.name.split("::")[-2], "%s returns Ok without sending only when nothing is recorded" % b.name.split("::")[-2], "%s can return Ok with names recorded and nothing sent" % b.name.split("::")[-2], "", w and b.describe_path(w))
+            callers = sorted({k.body.name for k in F.all_calls(b.name.replace("::{closure#0}", ""))})
+            r5.check(H in callers, "flush-called:" + b.name.split("::")[-2], "Client::handle calls it", "%s is never called from Client::handle (callers: %s)" % (b.name.split("::")[-2], callers))
+        # who removes names from the record without closing them
+        MUT = r"::(clear|truncate|pop|pop_front|pop_back|remove|swap_remove|retain|drain|take|replace|split_off|dedup)$"
+        removers = {}
+        for c in F.all_calls("re:" + MUT):
+            flds = {p_[1:] for o in origins(c.body, c.args[0]) if o.kind in ("place", "param") for p_ in o.proj if p_.startswith(".") and not p_[1:].isdigit()}
+            if flds & pending and c.body.name.startswith("pgcat::server::"):
+                removers.setdefault(c.body.name.replace("::{closure#0}", "").split("::")[-1], set()).add(c.name.split("::")[-1])
+        flush_names = {b.name.split("::")[-2] for b in flushers}
+        for fn, ops in sorted(removers.items()):
+            if fn in flush_names:
+                ok, why = True, "the flusher takes the names it closes"
+            elif fn == "has_prepared_statement":
+                hp_ = F.body("pgcat::server::Server::has_prepared_statement")
+                ok, why = bool(hp_ and hp_.calls(ADD)), "a recorded statement that is needed again is put back into the cache (it is still on the server)"
+            elif fn == "checkin_cleanup":
+                cc = F.body("pgcat::server::Server::checkin_cleanup::{closure#0}")
+                dea = [k.block for k in (cc.calls() if cc else []) if any("DEALLOCATE ALL" in x.upper() or "DISCARD ALL" in x.upper() for x in arg_strs(cc, k))]
+                clr = [k.block for k in (cc.calls("re:" + MUT) if cc else []) if {p_[1:] for o in origins(cc, k.args[0]) if o.kind in ("place", "param") for p_ in o.proj if p_.startswith(".")} & pending]
+                ok = bool(dea) and bool(clr) and all(any(cc.dominates(d_, b_) for d_ in dea) for b_ in clr) and bool(cc.calls("re:LruCache.*::clear$"))
+                why = "DEALLOCATE ALL drops every statement on the server, the cache and the record are cleared together"
+            else:
+                ok, why = False, ""
+            r5.check(ok, "record-remover:" + fn, "%s removes from the record (%s): %s" % (fn, sorted(ops), why), "%s removes names from Server.%s (%s) without closing them on the server" % (fn, sorted(pending), sorted(ops)))
     rp = ctx.body(RPS, r5)
     if rp:
-        rsw = switches(rp)
-        someE, noneE, _ = discr_edges(rp, r"core::option::Option<alloc::string::String>", "Some", origin_pred=lambda o: o.kind == "call" and o.call.name.endswith("add_prepared_statement_to_cache"), switches_cache=rsw)
-        if not someE:
-            r5.missing("Some(evicted) arm in register_prepared_statement")
-        else:
-            cn = [c.block for c in rp.calls("pgcat::messages::Close::new")]
-            sd = [c.block for c in rp.calls("pgcat::server::Server::send")]
-            oks = [blk for blk, i, st in rp.assigns() if st["rv"]["k"] == "agg" and st["rv"].get("variant") == "Ok" and st["lhs"]["l"] == 0]
-            w1 = rp.uncrossed_path([d for _, d in someE], oks, blocks=cn)
-            # the Close bytes are appended to the very buffer that is sent; `bytes.is_empty()` is then false
-            # (infeasible edge after extend_from_slice of a non-empty message), so that edge is not a way round the send
-            ext = [c for c in rp.calls("re:BytesMut::extend_from_slice$") if "pgcat::messages::Close::new" in {o.call.name for o in origins(rp, c.args[1], taint=True) if o.kind == "call"}]
-            buf_locals = set()
-            for c in ext:
-                v_ = set()
-                origins(rp, c.args[0], visited=v_)
-                buf_locals |= {l for l in v_ if rp.varnames.get(l)}
-            sent_locals = set()
-            for b_ in sd:
-                v_ = set()
-                origins(rp, rp.call_at(b_).args[1], visited=v_)
-                sent_locals |= {l for l in v_ if rp.varnames.get(l)}
-            empty_true = set()
-            for sw2, o, te, fe in bool_value_edges(rp, lambda o: o.kind == "call" and o.call.name.endswith("BytesMut::is_empty"), rsw):
-                v_ = set()
-                origins(rp, o.call.args[0], visited=v_)
-                if v_ & buf_locals:
-                    empty_true.add(te)
-            w2 = rp.uncrossed_path([d for _, d in someE], oks, blocks=sd, edges=empty_true)
-            r5.check(bool(ext) and bool(buf_locals & sent_locals), "Close-bytes-are-sent", "the Close message is appended to the buffer that Server::send transmits", "the Close message for the evicted statement is not appended to the buffer that is sent")
-            r5.check(bool(cn) and bool(sd) and w1 is None and w2 is None, "evict=>Close+send", "an eviction always builds Close(evicted) and sends it before returning Ok", "an evicted statement can stay open on the server (no Close sent)")
-            # Close is for the evicted name
-            if cn:
-                c = rp.call_at(cn[0])
-                src = {o.call.name.split("::")[-1] for o in origins(rp, c.args[0], taint=True) if o.kind == "call"}
-                r5.check("add_prepared_statement_to_cache" in src, "Close(evicted)", "Close::new receives the evicted name", "Close::new does not receive the evicted name")
         r5.check(bool(rp.calls("re:VecDeque::push_back$")), "registering-queue", "the statement being registered is queued for error handling", "register_prepared_statement no longer records the statement being registered")
     rv = ctx.body("pgcat::server::Server::recv::{closure#0}", r5)
     if rv:
         pops = rv.calls("re:LruCache.*::pop$")
         r5.check(bool(pops), "error=>uncache", "an ErrorResponse pops the registering statement from the server cache", "recv no longer removes a failed statement from the server cache")
-    hp = ctx.body("pgcat::server::Server::has_prepared_statement", r5)
-    if hp:
-        lk = [c.name.split("::")[-1] for c in hp.calls("re:^lru::LruCache.*::(get|get_mut|promote|contains|peek|peek_mut)$")]
-        r5.check(bool(lk) and set(lk) <= {"get", "get_mut", "promote"}, "presence-check-promotes", "has_prepared_statement is a recency-promoting lookup (LruCache::%s)" % sorted(set(lk)),
-                 "has_prepared_statement uses %s: a statement ensured earlier in a pipelined batch is not marked recently used, so ensuring a later statement of the same batch can evict and Close it before the batch is sent (`prepared statement does not exist`)" % sorted(set(lk)))
     ac = ctx.body("pgcat::server::Server::add_prepared_statement_to_cache", r5)
     if ac:
         r5.check(bool(ac.calls("re:LruCache.*::push$")), "lru-push", "the server cache is an LRU push (returns the evicted entry)", "add_prepared_statement_to_cache no longer uses LruCache::push")
+
+    # ---------------- R7 (D12)
+    r7 = ctx.rule("C08-R7", "a statement made available for the batch being assembled stays on the server until the batch is sent: nothing reachable from the batch-assembly region of the Sync arm sends a pgcat-built Close, "
+                  "and a statement recorded for closing is taken back when it is needed again", floor=3)
+    h = ctx.body(H, r7)
+    if h:
+        pf = [c for c in h.calls("re:VecDeque::pop_front$") if "extended_protocol_data_buffer" in {p_[1:] for o in origins(h, c.args[0]) if o.kind in ("place", "param") for p_ in o.proj if p_.startswith(".")}]
+        heads = [hd for hd in loop_headers(h) if any(c.block in natural_loop(h, hd) for c in pf)]
+        rm = [c.block for c in h.calls("pgcat::messages::read_message")]
+        heads = [hd for hd in heads if not any(b_ in natural_loop(h, hd) for b_ in rm)]
+        if not pf or not heads:
+            r7.missing("the loop that drains extended_protocol_data_buffer in Client::handle")
+        else:
+            drain = max(heads, key=lambda hd: -len(natural_loop(h, hd)))
+            msg_heads = [hd for hd in loop_headers(h) if any(b_ in natural_loop(h, hd) for b_ in rm)]
+            rm = rm + msg_heads   # one message at a time: do not wrap around into the next iteration of the message loops
+            fwd = h.reach([drain], avoid_blocks=rm)
+            sends = [c for c in h.calls("pgcat::client::Client::send_and_receive_loop", "pgcat::client::Client::send_server_message", "pgcat::server::Server::send") if c.block in fwd]
+            if not sends:
+                r7.missing("the send of the assembled batch after the drain loop")
+            else:
+                bwd = h.backreach([c.block for c in sends], avoid_blocks=rm)
+                region = set(fwd) & set(bwd)
+                closers = {n_ for n_, b in F.bodies.items() if not n_.startswith("bin:") and sends_close(b)}
+                r7.note("batch-assembly region: %d blocks from the drain loop (bb%d) to the batch send; bodies that send a pgcat-built Close: %s" % (len(region), drain, sorted(x.split("::")[-2] if x.endswith("}") else x.split("::")[-1] for x in closers)))
+                n_calls = 0
+                seen_k = {}
+                for c in h.calls():
+                    if c.block not in region or not c.name.startswith("pgcat::") or c.name.endswith("}") or c.block in [s_.block for s_ in sends]:
+                        continue   # `{closure#0}` callees are the polls of futures created by the calls examined here
+                    n_calls += 1
+                    short = c.name.split("::")[-1]
+                    seen_k[short] = seen_k.get(short, 0) + 1
+                    hit = sorted(F.reachable_fns([c.name]) & closers)
+                    r7.check(not hit, "no-close-while-assembling:%s#%d" % (short, seen_k[short]), "%s does not reach a Close-sending routine" % short,
+                             "while the batch is being assembled %s can send Close for a cached statement (via %s): a statement an earlier Bind/Describe of the same batch relies on is closed before the batch is sent "
+                             "(`prepared statement \"PGCAT_n\" does not exist`) whenever the batch names more distinct statements than the server cache holds" % (short, [x.split("::")[-2] for x in hit]), c.where())
+                ens = [c for c in h.calls(ENSURE, REGISTER) if c.block in natural_loop(h, drain)]
+                r7.check(len(ens) >= 3, "assembly-sites", "%d ensure/register sites in the drain loop, %d pgcat calls in the region examined" % (len(ens), n_calls), "expected >= 3 ensure/register sites in the drain loop, found %d" % len(ens))
+    hp = ctx.body("pgcat::server::Server::has_prepared_statement", r7)
+    if hp and pending:
+        reads = [c for c in hp.calls() if {p_[1:] for a in c.args for o in origins(hp, a) if o.kind in ("place", "param") for p_ in o.proj if p_.startswith(".")} & pending]
+        r7.check(bool(reads) and bool(hp.calls(ADD)), "recorded-statement-is-taken-back", "has_prepared_statement answers true for a statement that is recorded for closing and puts it back into the cache",
+                 "has_prepared_statement does not look at Server.%s: a statement that was evicted but is still on the server is prepared again under the same name (`prepared statement already exists`)" % sorted(pending))
+        if reads and hp.calls(ADD):
+            # a miss is only answered after the record was searched, and a find in the record re-inserts the name
+            lk = hp.calls("re:^lru::LruCache.*::(get|get_mut|promote|contains|peek|peek_mut)$")
+            r7.check(bool(lk), "cache-lookup", "has_prepared_statement looks the name up in the LRU", "has_prepared_statement no longer consults the server cache")
+            if lk:
+                rets = [bb for bb, blk in enumerate(hp.blocks) if blk["term"]["k"] == "return"]
+                srch = [c.block for c in reads if re.search(r"::(position|rposition|contains|any|find|binary_search|iter|retain|remove)$", c.name) or "Iterator" in c.name]
+                w = hp.uncrossed_path([lk[0].target], rets, blocks=srch)
+                hit_only = True
+                if w is not None:
+                    # the only way round the search is the path on which the LRU lookup succeeded
+                    hsw = switches(hp)
+                    T = set()
+                    for sw2, o, te, fe in bool_value_edges(hp, lambda o: o.kind == "call" and re.search(r"::(is_some|contains)$", o.call.name), hsw):
+                        T.add(te)
+                    for e_ in discr_edges(hp, r"core::option::Option<", "Some", origin_pred=lambda o: o.kind == "call" and o.call.block == lk[0].block, switches_cache=hsw)[0]:
+                        T.add(e_)
+                    w = hp.uncrossed_path([lk[0].target], rets, blocks=srch, edges=T)
+                r7.check(w is None, "miss=>record-searched", "a cache miss is answered only after the record of evicted statements was searched",
+                         "has_prepared_statement can answer `not on the server` without searching Server.%s" % sorted(pending), lk[0].where(), w and hp.describe_path(w))
+                addb = [c.block for c in hp.calls(ADD)]
+                live = set(hp.reach([0]))
+                r7.check(any(b_ in live for b_ in addb) and any(b_ in live for b_ in srch), "take-back-live", "the take-back code is reachable", "the code that takes a recorded statement back is unreachable")
 
     # ---------------- R6
     r6 = ctx.rule("C08-R6", "rewriting changes only the statement name (Parse::rewrite, Describe::rename)", floor=2)
